@@ -215,6 +215,12 @@ def directed(run):
             pk = mk_passkey(rng, "example.com", cred_id=cid, key=key_with_scalar_shape(rng, shape), counter=4, user_handle=b"\x05\x06")
             add("scalar/%s/%s" % (kind, shape), store_kind=kind, content=[pk], config={"counter": True}, user={"script": [USER_OK] * 2},
                 ops=[auth_op(rng, allow=[cid]), auth_op(rng, allow=[cid], cd=cd_mode(rng, 2), uv="required")])
+    # origins whose host has punycode labels: the client data carries the origin as the caller gave it (ASCII serialisation)
+    for tag, o, r in (("idn", "https://xn--bcher-kva.example", None), ("idn-sub", "https://login.xn--mnchen-3ya.example", "xn--mnchen-3ya.example"),
+                      ("idn-port", "https://xn--bcher-kva.example:8443", "xn--bcher-kva.example")):
+        for k in range(3):
+            add("origin/%s/%d" % (tag, k), store_kind="ref", user={"script": [USER_OK] * 2},
+                ops=[reg_op(rng, origin=o, rp_id=r, selection={"rk": "required", "uv": "preferred"}, cd=cd_mode(rng, k)), auth_op(rng, origin=o, rp_id=r, cd=cd_mode(rng, k))])
     # no credential at all / for this RP, with and without consent
     for tag, script in [("consent", USER_OK), ("denied", {"presence": False, "verification": False}), ("uv-missing", {"presence": True, "verification": False}), ("err", {"err": 0x27})]:
         add("empty/" + tag, store_kind="ref", user={"script": [script]}, ops=[auth_op(rng, uv="required")])
